@@ -80,6 +80,16 @@ func (p *Planner) Accessible(owner types.Type, inherited *types.Package, name st
 	if ast.IsExported(name) {
 		return true
 	}
+	// Go's own rule: an unexported member is selectable exactly from the package that DECLARED it, whatever the
+	// name of the type it is reached through (`type Row ext.Inner` has ext's unexported y; the reference used to
+	// repeat the tool's owner-type rule here, which is how that defect stayed invisible until the input round).
+	if st := structOf(deref(owner)); st != nil {
+		for i := 0; i < st.NumFields(); i++ {
+			if f := st.Field(i); f.Name() == name && f.Pkg() != nil {
+				return f.Pkg() == p.Pkg || f.Pkg().Path() == p.Pkg.Path()
+			}
+		}
+	}
 	pkg := inherited
 	if n, ok := deref(owner).(*types.Named); ok {
 		pkg = n.Obj().Pkg()
